@@ -6,12 +6,13 @@ and of Spyne's code) used by the direct oracle; drivers of the real implementati
 
 Universe description (extends harness/universe.py):
   desc = {'classes': [{'name', 'parent', 'fields': [{'name','ty','min','max','nillable'}]}]}
-  TY = ('prim', KIND, customized: bool) | ('ref', cid) | ('arr', TY)
+  TY = ('prim', KIND, customized: bool[, empty_is_none: bool]) | ('ref', cid) | ('arr', TY)
   KIND in int | text | bool | double | decimal | bytes
 Neutral values:
   ('none',) ('int', z) ('text', s) ('bool', b) ('double', f) ('decimal', D) ('bytes', b)
   ('obj', cid, [vals]) ('list', [vals]) ('raw', python document node)
 Every random choice comes from the rng passed in."""
+import re
 import struct, decimal, json
 from lib import gz, gtext, glist, gbool, gopt
 import universe as UV
@@ -120,11 +121,25 @@ def gen_universe(rng, n_classes=4, max_fields=4):
     return {'classes': classes}
 
 
+EIN_P = 0.2
+
+
+def _prim(rng, customized):
+    """a primitive member / item type; now and then customized with the documented option empty_is_none=True"""
+    if rng.random() < EIN_P:
+        return ('prim', rng.choice(KINDS), True, True)
+    return ('prim', rng.choice(KINDS), customized)
+
+
+def is_ein(ty):
+    return ty[0] == 'prim' and len(ty) > 3 and bool(ty[3])
+
+
 def _retype(rng, ty):
     if ty[0] == 'prim':
-        return ('prim', rng.choice(KINDS), True)
+        return _prim(rng, True)
     if ty[0] == 'arr':
-        return ('arr', _retype(rng, ty[1]) if ty[1][0] != 'prim' else ('prim', rng.choice(KINDS), False))
+        return ('arr', _retype(rng, ty[1]) if ty[1][0] != 'prim' else _prim(rng, False))
     return ty
 
 
@@ -161,7 +176,7 @@ def spyne_type(classes, ty):
     from spyne.model.binary import ByteArray
     prim = {'int': Integer, 'text': Unicode, 'bool': Boolean, 'double': Double, 'decimal': Decimal, 'bytes': ByteArray}
     if ty[0] == 'prim':
-        return prim[ty[1]]
+        return prim[ty[1]](empty_is_none=True) if is_ein(ty) else prim[ty[1]]
     if ty[0] == 'ref':
         return classes[ty[1]]
     return Array(spyne_type(classes, ty[1]))
@@ -218,6 +233,21 @@ def gen_leaf(rng, kind):
     raise ValueError(kind)
 
 
+FALSY = {'int': [0], 'double': [0.0, -0.0], 'bool': [False], 'decimal': ['0', '-0', '0E+3', '0.00']}
+
+
+def gen_leaf_ein(rng, kind):
+    """a conformant value of a primitive with empty_is_none=True: often the falsy boundary value of the kind (0, 0.0,
+    False, Decimal('0'): they are NOT empty), never the empty text / byte string (which the option reads as None)"""
+    if kind in FALSY and rng.random() < 0.5:
+        v = rng.choice(FALSY[kind])
+        return (kind, decimal.Decimal(v) if kind == 'decimal' else v)
+    while True:
+        v = gen_leaf(rng, kind)
+        if v[1] not in ('', b''):
+            return v
+
+
 ASCII_ALPHABET = 'abcXYZ 0123456789.-+eE:/'
 
 
@@ -240,6 +270,8 @@ def _rand_char(rng):
 def gen_value(rng, desc, ty, depth, poly, full=False):
     """a non-None conformant value of declared type ty; full: every member populated (recursively)"""
     if ty[0] == 'prim':
+        if is_ein(ty):
+            return gen_leaf_ein(rng, ty[1])
         return gen_leaf(rng, ty[1])
     if ty[0] == 'arr':
         n = 0 if depth <= 0 else rng.randint(0, 3)
@@ -269,7 +301,7 @@ def gen_field_value(rng, desc, f, depth, poly, full=False):
     return gen_value(rng, desc, f['ty'], depth, poly, full)
 
 
-def to_native(desc, classes, v, share=None):
+def to_native(desc, classes, v, share=None, chunks=None, iters=True):
     """neutral value -> Spyne natives.  share: None -> every object value becomes its own instance (a tree);
     a dict -> equal object values become ONE instance (a DAG: the same instance wherever the value recurs,
     across calls with the same dict too); share['hits'] counts the reuses"""
@@ -277,11 +309,12 @@ def to_native(desc, classes, v, share=None):
     if k == 'none':
         return None
     if k == 'bytes':
-        return [v[1]]
+        # (an iterator can be read once: never inside an instance that may be written twice)
+        return chunked(chunks, v[1], iters and share is None)
     if k in ('int', 'text', 'bool', 'double', 'decimal', 'raw'):
         return v[1]
     if k == 'list':
-        return [to_native(desc, classes, x, share) for x in v[1]]
+        return [to_native(desc, classes, x, share, chunks, iters) for x in v[1]]
     cid = v[1]
     key = None
     if share is not None:
@@ -291,11 +324,36 @@ def to_native(desc, classes, v, share=None):
             return share[key]
     kw = {}
     for f, x in zip(flat_fields(desc, cid), v[2]):
-        kw[f['name']] = to_native(desc, classes, x, share)
+        kw[f['name']] = to_native(desc, classes, x, share, chunks, iters)
     inst = classes[cid](**kw)
     if share is not None:
         share[key] = inst
     return inst
+
+
+def chunked(rng, b, iters=True):
+    """a ByteArray value is a sequence of byte chunks; the value is their concatenation.  rng None: the one-chunk
+    list.  Else a random rendering: a list / tuple / iterator of chunks cut anywhere (so chunk lengths are not
+    multiples of 3), with empty chunks, no chunk at all for the empty value, or the plain byte string."""
+    if rng is None:
+        return [b]
+    r = rng.random()
+    if r < 0.1:
+        return [b]
+    if r < 0.17:
+        return b
+    cuts = sorted(rng.randint(0, len(b)) for _ in range(rng.randint(0, 4)))
+    parts = [b[i:j] for i, j in zip([0] + cuts, cuts + [len(b)])]
+    if rng.random() < 0.3:
+        parts.insert(rng.randint(0, len(parts)), b'')
+    if not b and rng.random() < 0.5:
+        parts = []
+    r = rng.random()
+    if r < 0.45:
+        return parts
+    if r < 0.9 or not iters:
+        return tuple(parts)
+    return iter(parts)      # consumed once: only where the value is serialized once
 
 
 def share_values(rng, vals, p=0.6):
@@ -489,10 +547,15 @@ def g_kind(T, kind):
     return {'text': 'KText', 'bool': 'KBool', 'double': 'KDouble', 'bytes': 'KBytes'}[kind]
 
 
+def g_prim(T, kind):
+    """DPrim / DPrimE (empty_is_none) of the real Spyne class T"""
+    return '(%s %s)' % ('DPrimE' if T.Attributes.empty_is_none else 'DPrim', g_kind(T, kind))
+
+
 def g_dty(ty, T):
     """dty of description ty whose real Spyne class is T"""
     if ty[0] == 'prim':
-        return '(DPrim %s)' % g_kind(T, ty[1])
+        return g_prim(T, ty[1])
     if ty[0] == 'ref':
         return '(DRef %d%%nat)' % ty[1]
     inner, = T._type_info.values()
@@ -632,11 +695,11 @@ def gen_sig(rng, desc, name, n_params=None, n_results=None):
     def slot(nm):
         r = rng.random()
         if r < 0.45 or not desc['classes']:
-            ty = ('prim', rng.choice(KINDS), rng.random() < 0.5)
+            ty = _prim(rng, rng.random() < 0.5)
         elif r < 0.8:
             ty = ('ref', rng.randrange(len(desc['classes'])))
         else:
-            inner = ('prim', rng.choice(KINDS), False) if rng.random() < 0.5 else ('ref', rng.randrange(len(desc['classes'])))
+            inner = _prim(rng, False) if rng.random() < 0.5 else ('ref', rng.randrange(len(desc['classes'])))
             ty = ('arr', inner)
             if rng.random() < 0.2:
                 ty = ('arr', ty)
@@ -648,7 +711,7 @@ def gen_sig(rng, desc, name, n_params=None, n_results=None):
             if rng.random() < 0.5:
                 f['nillable'] = False
         if ty[0] == 'prim' and (f['min'], f['max'], f['nillable']) != (0, 1, True):
-            f['ty'] = ('prim', ty[1], True)
+            f['ty'] = ('prim', ty[1], True) + tuple(ty[3:])
         return f
     np_ = rng.choice([0, 1, 1, 2, 3, 4]) if n_params is None else n_params
     nr = rng.choice([0, 1, 1, 1, 2, 3]) if n_results is None else n_results
@@ -806,7 +869,14 @@ def ref_leaf_dec(c, kind, d):
             if isinstance(d, bytes):
                 return ('bytes', d)
         elif isinstance(d, str):
-            return ('bytes', base64.b64decode(d, validate=True))
+            # strictly (RFC 4648): alphabet only, padding at the end only, and the text is the encoding of what
+            # it decodes to
+            if not re.match(r'^(?:[A-Za-z0-9+/]{4})*(?:[A-Za-z0-9+/]{2}==|[A-Za-z0-9+/]{3}=)?$', d):
+                raise RefDecodeError('bytes leaf carried as text that is not one base64 encoding: %r' % d[:60])
+            b = base64.b64decode(d, validate=True)
+            if base64.b64encode(b).decode('ascii') != d:
+                raise RefDecodeError('bytes leaf carried as non-canonical base64: %r' % d[:60])
+            return ('bytes', b)
     raise RefDecodeError('%s leaf carried as %r' % (kind, type(d).__name__))
 
 
